@@ -203,29 +203,6 @@ theorem getD_map_mul (l : List Nat) (m i : Nat) : (l.map (m * ·)).getD i 0 = m 
   simp only [List.getD_eq_getElem?_getD, List.getElem?_map]
   cases l[i]? <;> simp
 
-theorem headOuts_scale (strides chans hs ws : List Nat) (mh mw : Nat) (heads : List Head) (hins : List Nat)
-    (outs : List (Nat × Nat × Nat)) (h : headOuts strides chans hs ws heads hins = .ok outs) :
-    headOuts strides chans (hs.map (mh * ·)) (ws.map (mw * ·)) heads hins
-      = .ok (outs.map fun (c, a, b) => (c, mh * a, mw * b)) := by
-  induction heads generalizing hins outs with
-  | nil => simp [headOuts] at h ⊢; exact h.symm ▸ rfl
-  | cons hd hds ih =>
-    cases hins with
-    | nil => simp [headOuts] at h ⊢; exact h.symm ▸ rfl
-    | cons hin hins =>
-      simp only [headOuts] at h ⊢
-      obtain ⟨i, hi, h⟩ := Res.bind_eq_ok.mp h
-      rw [hi]; simp only [Res.bind_ok]
-      split at h
-      · cases h
-      · rename_i hc
-        simp only [hc]
-        obtain ⟨l', hl', hl⟩ := Res.bind_eq_ok.mp h
-        injection hl with hl; subst hl
-        rw [ih hins l' hl']
-        simp
-        exact ⟨by cases hs[i]? <;> simp, by cases ws[i]? <;> simp⟩
-
 /-- every head's output has the head's channel count, and comes from the stage labelled with
     the head's stride -/
 theorem headOuts_spec (strides chans hs ws : List Nat) (heads : List Head) (hins : List Nat)
@@ -240,11 +217,14 @@ theorem headOuts_spec (strides chans hs ws : List Nat) (heads : List Head) (hins
     | nil => simp at hlen
     | cons hin hins =>
       simp only [headOuts] at h
-      obtain ⟨i, hi, h⟩ := Res.bind_eq_ok.mp h
-      split at h
-      · cases h
-      · obtain ⟨l', hl', hl⟩ := Res.bind_eq_ok.mp h
-        injection hl with hl; subst hl
+      obtain ⟨o, ho, h⟩ := Res.bind_eq_ok.mp h
+      obtain ⟨l', hl', hl⟩ := Res.bind_eq_ok.mp h
+      injection hl with hl; subst hl
+      unfold headOutFor at ho
+      obtain ⟨i, hi, ho⟩ := Res.bind_eq_ok.mp ho
+      split at ho
+      · cases ho
+      · injection ho with ho; subst ho
         obtain ⟨hlt, hget⟩ := findIdx_ok hi
         obtain ⟨ih1, ih2⟩ := ih hins l' (by simpa using hlen) hl'
         refine ⟨by simp [ih1], ?_⟩
@@ -253,5 +233,63 @@ theorem headOuts_spec (strides chans hs ws : List Nat) (heads : List Head) (hins
         rcases hp with rfl | hp
         · exact ⟨i, hlt, hget, rfl⟩
         · exact ih2 p hp
+
+/-- per-head facts assemble into the `Model.__init__` loop -/
+theorem initHeads_map (c : Cfg) (b : Built) (g : Head → Nat) (hs : List Head)
+    (h : ∀ hd ∈ hs, headInFor c.rate b.xIn b.dec.length (labels b.dec) c.minOs hd.os = .ok (g hd)) :
+    initHeads c b hs = .ok (hs.map g) := by
+  induction hs with
+  | nil => rfl
+  | cons hd hs ih =>
+    simp only [initHeads, h hd (by simp), Res.bind_ok, ih (fun x hx => h x (by simp [hx])), List.map_cons]
+
+/-- per-head facts assemble into the `Model.forward` loop -/
+theorem headOuts_map (strides chans hs ws : List Nat) (g : Head → Nat) (o : Head → Nat × Nat × Nat)
+    (heads : List Head) (h : ∀ hd ∈ heads, headOutFor strides chans hs ws hd (g hd) = .ok (o hd)) :
+    headOuts strides chans hs ws heads (heads.map g) = .ok (heads.map o) := by
+  induction heads with
+  | nil => rfl
+  | cons hd hds ih =>
+    simp only [List.map_cons, headOuts, h hd (by simp), Res.bind_ok, ih (fun x hx => h x (by simp [hx]))]
+
+/-- `up_interpolate = False` only adds a check (the `ConvTranspose2d` channels) -/
+theorem decChan_upInterp_mono (bs : List DecBlock) (c : Nat) (fs l : List Nat)
+    (h : decChan false bs c fs = .ok l) : decChan true bs c fs = .ok l := by
+  induction bs generalizing c fs l with
+  | nil => simpa [decChan] using h
+  | cons b bs ih =>
+    simp only [decChan, Bool.not_false, Bool.true_and, Bool.not_true, Bool.false_and,
+      Bool.false_eq_true, if_false] at h ⊢
+    split at h
+    · cases h
+    · cases hb : b.skip with
+      | true =>
+        simp only [hb, if_true] at h ⊢
+        cases fs with
+        | nil => simp at h
+        | cons f fs =>
+          simp only at h ⊢
+          split at h
+          · cases h
+          · rename_i hc
+            simp only [hc]
+            obtain ⟨l', hl', hl⟩ := Res.bind_eq_ok.mp h
+            rw [ih _ _ _ hl']; exact hl
+      | false =>
+        simp only [hb, Bool.false_eq_true, if_false] at h ⊢
+        split at h
+        · cases h
+        · rename_i hc
+          simp only [hc]
+          obtain ⟨l', hl', hl⟩ := Res.bind_eq_ok.mp h
+          rw [ih _ _ _ hl']; exact hl
+
+theorem minList_of_le (l : List Nat) (m : Nat) (h : ∀ x ∈ l, m ≤ x) : minList l m = m := by
+  induction l with
+  | nil => rfl
+  | cons x xs ih =>
+    simp only [minList]
+    have : min x m = m := Nat.min_eq_right (h x (by simp))
+    rw [this]; exact ih (fun y hy => h y (by simp [hy]))
 
 end SleapVerif.Arch
